@@ -555,6 +555,40 @@ func runC08(w *World, r *Report) {
 	// ---- copy-cell
 	r.Rule("C08.copy-cell", "copy-list cells written under sync.Once; cursor advance agrees; atomic close count; last child closes the source", 6)
 	copyCellChecks(w, r, "C08.copy-cell")
+	r.Rule("C08.source-behind-the-copies-only", "the source of a copied stream is read and closed by the parent's own methods only (peek fills the shared cell, close counts the copies): no other function of package schema touches parentStreamReader.sr — a merge that reads the source directly for 'the last copy still open' loses the items the closed siblings had already pulled into the shared list", 2)
+	{
+		pT := w.Named("schema", "parentStreamReader")
+		n := 0
+		for _, fn := range w.RepoFuncs("schema") {
+			top := topFunc(fn)
+			own := false
+			if rv := top.Signature.Recv(); rv != nil && namedOf(rv.Type()) != nil && namedOf(rv.Type()).Origin().Obj() == pT.Obj() {
+				own = true
+			}
+			instrs(fn, func(in ssa.Instruction) {
+				fa, ok := in.(*ssa.FieldAddr)
+				if !ok {
+					return
+				}
+				fv := fieldVarOfAddr(fa)
+				if fv == nil || fv.Name() != "sr" {
+					return
+				}
+				if nt := namedOf(deref(fa.X.Type())); nt == nil || nt.Origin().Obj() != pT.Obj() {
+					return
+				}
+				// the constructor's store into a fresh parent
+				if freshBase(fa.X, 0) {
+					return
+				}
+				n++
+				r.Check(own, "C08.source-behind-the-copies-only", fmt.Sprintf("%s touches parentStreamReader.sr", w.fname(origin(fn))), fa.Pos(), "a method of parentStreamReader", "the source behind the copies is reached from outside the parent: items that sibling copies pulled from the source before they were closed exist only in the shared linked list, so a reader of the raw source delivers [2 3 4] where every copy must see [1 2 3 4]")
+			})
+		}
+		if n < 2 {
+			undecidedf("C08.source-behind-the-copies-only: only %d accesses of parentStreamReader.sr found", n)
+		}
+	}
 	r.Rule("C08.copies-share-the-converted-items", "the copies of a converted reader share the CONVERTED items: nothing on the way of StreamReader.Copy builds a convert reader, so a convert function runs once per item (inside the shared cell) whatever the number of copies — a stateful convert (numbering, de-duplicating, dropping by history) would otherwise show each copy a different sequence, and its panic would escape from one copy's Recv instead of landing in the cell", 1)
 	{
 		cp := w.Fn("schema", "StreamReader.Copy")
